@@ -153,6 +153,14 @@ func init() {
 		}}
 }
 
+func init() {
+	families["C16"] = &rt.Family{Prop: "C16", Module: "MC_C02", PackSize: 1,
+		More: []rt.Extra{
+			{Module: "MC_C04", Frac: frac(0.02, 0.2)}, {Module: "MC_C08", Frac: frac(0.004, 0.04)}, {Module: "MC_C09", Frac: frac(0.1, 1)},
+			{Module: "MC_C11", Frac: frac(0.003, 0.03)}, {Module: "MC_C06", ExtraCfg: maxStr(1, 1), Frac: frac(0.01, 0.1)}, {Module: "MC_C05", Frac: frac(0.0003, 0.003)},
+		}}
+}
+
 func hasMult(u *rt.Unit) bool {
 	b := fmt.Sprint(u.Raw["schema"], u.Raw["defs"])
 	return containsStr(b, "multipleOf")
@@ -173,6 +181,9 @@ func Run(prop, tier string) int {
 	}
 	if prop == "C12" {
 		return rt.RunDeterminism(families[prop], tier, "classes = seeded samples of the units of the C02, C04, C08, C09, C11, C14 families (single-file schemas) and 3 multi-file CLI scenarios with cross-file references, per-schema package / output / root-type mappings (ids also spelled with a trailing #), definitions and properties that collide on their Go name, options; variants = 8 (thorough 32) repeated in-process runs (Go re-randomises every map range), 6 (24) random permutations of the keys of every JSON object, 3 (8) separate processes, absolute vs relative arguments, the schema directory moved elsewhere; all variants of a class must produce byte-identical output. distinct_nontrivial = variants other than the first")
+	}
+	if prop == "C16" {
+		return rt.RunOptions(families[prop], tier, "schemas = a kitchen-sink schema (pattern, multipleOf, formats, defaults, string and mixed enums, typed additionalProperties, anyOf, $ref, titles, names the capitalization list applies to) plus seeded samples of the units of the C02, C04, C05, C06, C08, C09, C11 families; each generated under all 64 subsets of {only-models, tags, capitalization, struct-name-from-title, schema-root-type, extra-imports}; events = all 192 pairs of sets differing in exactly one option per schema; TLC applies the table of spec/Options.tla to go/ast projections of the two programs and both must compile. distinct_nontrivial = pairs whose two sides both generate")
 	}
 	if prop == "C13" {
 		return rt.RunSpellings(tier, "classes = 3 base shapes (ids, schema-level and type-level definitions, $ref prefixes, dependent schemas, items / additionalProperties / property anything-schemas, property names YAML reads as number / boolean / null); variants = EVERY subset of the applicable re-spelling switches (id, definitions, #/definitions/, upper-case prefix, dependencies, type as one-element list, true for {}, legacy and current key both present) x {JSON, block YAML, flow YAML with unquoted special keys}; all variants of a class must produce byte-identical output. distinct_nontrivial = variants other than the canonical one")
